@@ -760,6 +760,8 @@ def build_new_args(mk: Maker, qual, pnames, fn_sig):
             k = rng.choice([1, 2, 4])
             lefts = np.sort(mk.np_rng.choice(np.arange(2, x.size - 12), size=k, replace=False))
             rights = lefts + mk.np_rng.randint(2, 9, size=k)
+            if rng.random() < 0.25:  # an edge outside the trace
+                lefts[0], rights[-1] = rng.choice([(-3, rights[-1]), (lefts[0], x.size + 4), (-1, x.size)])
             return {"x": x, "lefts": lefts, "rights": rights, "base_method": base_m, "height_method": rng.choice(["maxima", "center", "bogus"]),
                     "baseline": rng.choice([None, np.full(x.size, 0.25)])}
     raise KeyError(f"no factory for {qual}")
@@ -770,6 +772,7 @@ class C19(Prop):
     anchored = ["src/pewlib/" + m.split("pewlib.")[1].replace(".", "/") + ".py" for m in T.INVENTORY_MODULES]
     cases = {"quick": 500, "thorough": 6000}
     rule = ("one targeted case per inventoried public function/method (static obligation for every parameter + one dynamic call), "
+            "24 (thorough: 149) more for every function with a pair in UNPROVED_STATIC (dynamic-only pairs), "
             "then random (function, argument seed) pairs; non-trivial = the call actually ran pewlib code with at least one "
             "array/list/dict/object argument; distinct by (function, argument seed)")
     trusted = ["harness/effects/translate.py (Python AST -> effect IR) and its tables of NumPy/stdlib calls returning fresh memory, "
@@ -831,10 +834,33 @@ class C19(Prop):
     def targeted(self, tier):
         for name in sorted(self.inv()):
             yield {"func": name, "aseed": 0}
+        # the pairs the static half cannot decide rest on the dynamic calls alone: many more of those
+        for name in sorted({k[0] for k in UNPROVED_STATIC} & set(self.inv())):
+            for a in range(1, 25 if tier == "quick" else 150):
+                yield {"func": name, "aseed": a}
 
     def generate(self, rng, tier):
         names = sorted(self.inv())
         return {"func": rng.choice(names), "aseed": rng.randint(1, 10 ** 6)}
+
+    def search_extra(self, tier):
+        """failing-input search: many argument seeds for exactly the functions whose static obligations are broken"""
+        d = core.Driver()
+        try:
+            suspects = []
+            for name, f in sorted(self.inv().items()):
+                rep = d.call("c19.analyse", np=f["np"], prog=f["ir"])
+                w = [f["params"][i] for i in rep["write"]]
+                r = [f["params"][i] for i in rep["ret"]]
+                if any((name, p) not in ALLOWED_WRITES and not static_waived(name, p, "write") for p in w) \
+                        or any(not alias_allowed(name, p, f["kind"]) and not static_waived(name, p, "alias") for p in r):
+                    suspects.append(name)
+        finally:
+            d.close()
+        per = max(40, (1500 if tier == "quick" else 6000) // max(1, len(suspects)))
+        for s in range(per):
+            for name in suspects:
+                yield {"func": name, "aseed": 10 ** 6 + 1 + s}
 
     def known(self, case, out):
         return None
